@@ -23,6 +23,13 @@ impl WatchMap {
         self.map.size_in_bytes()
     }
 
+    /// Returns the head of the linked list for `literal` (verification hooks
+    /// only).
+    #[cfg(feature = "verif-hooks")]
+    pub(crate) fn verif_head(&self, literal: Literal) -> Option<ClauseId> {
+        self.map.get(literal).copied()
+    }
+
     /// Add the clause to the linked list of the literals that the clause is
     /// watching.
     pub(crate) fn start_watching(&mut self, clause: &mut WatchedLiterals, clause_id: ClauseId) {
